@@ -92,6 +92,17 @@ def corpus_cases():
     c = h.case()
     c["cls"] = "corpus"
     out.append(c)
+    # F24, application-id half, shared filter: the rejected deletion of A has already dropped A's references to the
+    # filter's id; the (accepted) deletion of B, now the "last" user, releases the id that A's entries still name
+    h = G.Hist(None, "K-shared-filter-failed-delete")
+    h.establish("A", nq=1, gnb=0, sdf=0)
+    h.establish("B", nq=1, gnb=1, sdf=0)
+    h.delete("A")["faults"] = [dict(G.FAULT_KINDS["grpc"], at=2)]
+    h.delete("B")
+    h.tail()
+    c = h.case()
+    c["cls"] = "corpus"
+    out.append(c)
     return out
 
 
@@ -118,6 +129,13 @@ def random_cases(rng, n):
             else:
                 h.delete(rng.choice(live))
             st = h.steps[-1]
+            # envelope of the random histories: no Write fault on the deletion of a session whose PDRs carry an
+            # application filter - that is exactly where the recorded finding F24 (application id / reference released
+            # before the DELETE batch is written) starts, and its consequences then depend on which later request
+            # happens to meet the id; these deletions are covered by the exhaustive sweep (S8, S9, S11, S12) and by
+            # the corpus scenarios, where the failure carries the finding's tag
+            if st["op"] == "del" and any("sdf" in p for p in h.sess[st["key"]]["pdrs"]):
+                continue
             if rng.random() < 0.6:
                 for _ in range(rng.choice([1, 1, 2])):
                     f = dict(G.FAULT_KINDS[rng.choice(["grpc", "p4", "p4ae", "unk", "p4mix"])])
@@ -284,7 +302,7 @@ def run(tier, seed, replay=None):
     ck.rule = ("13 scenarios (the 9 of DESIGN.md + Update PDR, shared-then-deleted, two tiny-pool migration probes) and one corpus scenario per recorded finding, each run fault-free, then once per "
                "(establishment/modification/deletion step, k <= W Writes of that step, 4 answer kinds: gRPC UNAVAILABLE, p4.Error RESOURCE_EXHAUSTED, "
                "p4.Error ALREADY_EXISTS, gRPC UNKNOWN without details) + a retried establishment after every failing position, each followed by two further "
-               "sessions; then random histories with 1-2 faults per step; non-trivial = at least one Write of the case failed; distinct = distinct "
+               "sessions; then random histories with 1-2 faults per step (none on the deletion of a session holding an application filter: F24 starts there, covered by sweep and corpus); non-trivial = at least one Write of the case failed; distinct = distinct "
                "(scenario, multiset of (operation, Write site, answer))")
     ck.prove(TARGETS)
     rng = rng_for(seed, "C15")
